@@ -22,6 +22,8 @@ func init() { props["C20"] = checkC20 }
 //	uniform pick    k := Intn(E); … s[k]                                                      E ≡ len(s)
 //	permutation     p := Perm(E); … s[p[·]]                                                   E ≡ len(s)
 func checkC20(c *Ctx) {
+	c.Decides("GENCMD: each `generate` command calls the generator its name announces (uniformtree -> RandomUniformBinaryTree ...)")
+	c.generatorCommands("GENCMD")
 	c.Decides("DRAW: every rand.Intn/Int31n/Int63n/Perm call site is classified (reservoir, reservoir with replacement, inside-out Fisher–Yates, uniform index pick, permutation) and its argument must be the unique range that makes the idiom unbiased: c+1 for the item at zero-based position c of a reservoir, the running count (incremented before the draw) for replacement sampling, i+1 for the shuffle, len(s) for a pick from s")
 	c.DoesNotDecide("the distribution of generated tree topologies or of anything computed after the draw; quality of math/rand itself; rand.Perm/Intn are trusted uniform")
 	c.Trusted = append(c.Trusted, "math/rand.Intn(n) is uniform on [0,n), rand.Perm(n) a uniform permutation")
